@@ -277,6 +277,12 @@ class Check:
             out, _ = p.communicate()
             k, path, terms = item
             m = re.search(r"=\s*\[(.*?)\]\s*:\s*list nat", out, re.S)
+            if p.returncode == 124 and not out.strip():
+                # the shard hit the time limit: evaluate its cases one by one; a case on which the eager model
+                # itself is too slow is left to the L3 oracle (counted, never silently dropped)
+                slow = self._coq_eval_singly(imports, case_type, checker, terms, k * shard, bad)
+                self.coverage["model_too_slow_cases"] = self.coverage.get("model_too_slow_cases", 0) + slow
+                continue
             if p.returncode != 0 or m is None:
                 raise CoqEvalError("coqc failed on generated cases %s:\n%s" % (path, out[-3000:]))
             idx = [int(x) for x in re.findall(r"\d+", m.group(1))]
@@ -295,6 +301,37 @@ class Check:
                                    capture_output=True, text=True, cwd=self.scratch)
                 shown[i] = " ".join((r.stdout + r.stderr).split())[:4000]
         return bad, shown
+
+    def _coq_eval_singly(self, imports, case_type, checker, terms, base, bad, limit=120, par=12):
+        """one coqc per case (after a shard timed out); returns the number of cases over the limit"""
+        jobs = []
+        for j, t in enumerate(terms):
+            path = os.path.join(self.scratch, "single_%s_%d_%d.v" % (self.pid, base, j))
+            with open(path, "w") as f:
+                f.write("From Coq Require Import ZArith QArith List Ascii String Bool.\nImport ListNotations.\n")
+                f.write(imports + "\nOpen Scope Z_scope.\n")
+                f.write("Definition cases : list (%s) := [\n  %s\n].\n" % (case_type, t))
+                f.write("Eval vm_compute in (DC.Model.Base.bad_indices (%s) cases).\n" % checker)
+            jobs.append((j, path))
+        slow = 0
+        running = []
+        while jobs or running:
+            while jobs and len(running) < par:
+                j, path = jobs.pop(0)
+                running.append((j, path, subprocess.Popen(["timeout", str(limit), "coqc", "-Q", COQ, "DC", "-o", path + "o", path],
+                                                          stdout=subprocess.PIPE, stderr=subprocess.STDOUT, text=True, cwd=self.scratch)))
+            j, path, p = running.pop(0)
+            out, _ = p.communicate()
+            m = re.search(r"=\s*\[(.*?)\]\s*:\s*list nat", out, re.S)
+            if p.returncode == 124 and not out.strip():
+                slow += 1
+                self.notes.append("model evaluation over %d s on one case (left to the L3 oracle): %s" % (limit, terms[j][:300]))
+                continue
+            if p.returncode != 0 or m is None:
+                raise CoqEvalError("coqc failed on generated case %s:\n%s" % (path, out[-3000:]))
+            if re.findall(r"\d+", m.group(1)):
+                bad.append(base + j)
+        return slow
 
     # ---- verdicts -------------------------------------------------------------------------
     def write_replay(self, name, payload):
